@@ -156,6 +156,15 @@ fn scalar_out(v: &ScalarValue) -> OutV {
 /// `pub(crate)`); everything else is the crate's own code.
 pub async fn run_real(env: &Env, p: &PlanSpec, flows: &Flows) -> Result<Table, String> {
     let cmd = build_command(p);
+    // the same query as text through the real parser must give the same aggregate plan
+    match snel_db::command::parser::parse_command(&query_text(p)) {
+        Ok(parsed) => {
+            if AggregatePlan::from_command(&parsed) != AggregatePlan::from_command(&cmd) || parsed != cmd {
+                return Err(format!("parser: plan of {:?} differs", query_text(p)));
+            }
+        }
+        Err(e) => return Err(format!("parser: {:?} rejected: {e:?}", query_text(p))),
+    }
     let segs = Arc::new(std::sync::RwLock::new(Vec::<String>::new()));
     let plan = QueryPlan::new(cmd.clone(), &env.registry, &env.base, &segs, None)
         .await
